@@ -27,7 +27,8 @@ RULE = ("program = constructor variant (arrays / lists / int dtype / strided / r
         "from_dataframe / x=None) + up to 6 random admissible mutators with read-only probes in between + "
         "restore_original + up to 5 further mutators applied to the restored object and to a fresh one. non-trivial: "
         "at least 2 mutators executed and the working series differs from the original before the restore; distinct "
-        "by case index.")
+        "by case index."
+        " Also: from_csv, from_dataframe with default and named columns, programs on int32 / int16 storage with integer-typed normalise bounds, numpy.bool_ / 0 / 1 flags, read-only probes whose return values are compared with the current series.")
 REQUIRED_MONITORS = ["weaver_invariant", "c09:caller_arrays", "c09:original_unchanged", "c09:restore_differential"]
 ASSUMPTIONS = ["operations are generated with admissible arguments only; an exception from such an operation is reported",
                "indices-based truncation is only issued while working and reference series are the same samples"]
